@@ -275,7 +275,19 @@ impl Global {
         // called from a thread that was pinned in `global_epoch`, and the global epoch cannot be
         // advanced two steps ahead of it.
         let new_epoch = global_epoch.successor();
-        self.epoch.store(new_epoch, Ordering::Release);
+        // The caller is not necessarily still pinned in `global_epoch`: unlinking a removed
+        // participant during the traversal above defers its destruction, which can seal the
+        // local bag and, while collecting, re-pin this participant into the next epoch. Other
+        // threads may then advance past `new_epoch`, and a plain store would move the global
+        // epoch backwards.
+        if let Err(current) = self.epoch.compare_exchange(
+            global_epoch,
+            new_epoch,
+            Ordering::Release,
+            Ordering::Relaxed,
+        ) {
+            return current;
+        }
         #[cfg(feature = "circ_verif")]
         crate::verif::ev(crate::verif::kind::ADVANCED, new_epoch.value(), 0, 0);
         new_epoch
